@@ -343,7 +343,8 @@ theorem Inv_first (b : B) (c : Nat) (f : First) (a : Bool) (h : Inv b) : Inv (fi
 
 theorem Inv_step (b : B) (e : Ev) (h : Inv b) : Inv (step b e).1 := by
   cases e with
-  | first c f a => exact Inv_first b c f a h
+  | first c f a =>
+    exact Mqtt.Proofs.Connect.connect_state Inv (fun b c h => Inv_stop b c h) (fun b c f a h => Inv_first b c f a h) b c f a h
   | packet c p => exact Inv_packet b c p h
   | close c => exact Inv_stop b c h
   | srvPub p => exact Inv_srvPub b p h
